@@ -63,6 +63,8 @@ def reference(frames_pos, types, H, ppp, w, lengths):
     types = types_f[0]
     N, d = frames_pos[0].shape
     nb = int(np.min(lengths) / 2.0 / w)
+    Hs = list(H) if isinstance(H, (list, tuple)) else [H] * len(frames_pos)      # one cell matrix per frame (sheared trajectories)
+    H = Hs[0]
     V = abs(np.linalg.det(H))
     species = np.unique(types)
     K = len(species)
@@ -80,10 +82,10 @@ def reference(frames_pos, types, H, ppp, w, lengths):
             cols[f"gr{a}{b}"] = [np.zeros(nb), np.zeros(nb)]
     relaxed = np.zeros(nb, dtype=bool)
     off = ~np.eye(N, dtype=bool)
-    for pos, tf in zip(frames_pos, types_f):
+    for pos, tf, Hf in zip(frames_pos, types_f, Hs):
         ti = np.broadcast_to(tf[:, None], (N, N))
         tj = np.broadcast_to(tf[None, :], (N, N))
-        _vec, dist, _d2 = geom.pair_table(pos, H, ppp)
+        _vec, dist, _d2 = geom.pair_table(pos, Hf, ppp)
         lo, hi, rel = histogram_interval(dist[off], w, nb)
         cols["gr"][0] += lo
         cols["gr"][1] += hi
@@ -99,9 +101,9 @@ def reference(frames_pos, types, H, ppp, w, lengths):
     out["gr"] = tuple(V / (N * N) * c / nf / vs for c in cols["gr"])
     for a, b in pairs:
         out[f"gr{a}{b}"] = tuple(V / (cnt[a] * cnt[b]) * c / nf / vs for c in cols[f"gr{a}{b}"])
-    if geom.is_orthogonal(H):
+    if all(geom.is_orthogonal(Hf) for Hf in Hs):
         compare = np.ones(nb, dtype=bool)
     else:
-        ra = geom.agreement_radius(H, ppp)
+        ra = min(geom.agreement_radius(Hf, ppp) for Hf in Hs)
         compare = (np.arange(nb) + 1) * w <= ra
     return out, r, compare, relaxed, nb
